@@ -5,7 +5,9 @@
 case kinds: choose (CHOOSE(i,v1..vn); a value may be an array, written as a literal or handed over in a variable,
 src = lit / var), index (INDEX on a variable / literal / range value, src = var / lit / range),
 match (MATCH(x,A[,t]); with `pre` a criteria function or a MATCH in another letter case is evaluated first on the same
-array and text), im (INDEX(A,MATCH(x,A,0))), fn (direct call of one of the three functions, model comparison only)"""
+array and text), im (INDEX(A,MATCH(x,A,0))), fn (direct call of one of the three functions, model comparison only);
+an index / match / im case with key `asep` is written with that separator (',' ';' or '\\') between the arguments of the
+call(s) instead of the comma"""
 import itertools
 
 from .. import common, fx
@@ -52,7 +54,21 @@ RULE = ('formulas evaluated by one shared hotxlfp.Parser (kinds choose, index, m
         'empty lookup arrays, logicals) with types 0, 1, -1. '
         'Direct calls (kind fn, 800 / 6000 times scale): INDEX / MATCH / CHOOSE on 0..5 arguments from 25 odd values (blank, logicals, '
         'ints, floats, text numerals, text, "A*", empty, flat, nested, ragged and mixed lists): model comparison only (value, or tag of '
-        'the exception raised). Totals about 21000 cases in quick (39500 at scale 5), 155800 in thorough. '
+        'the exception raised). '
+        'Argument separators (key asep; added after the formula cases above, index i in the list built so far): an index, match or '
+        'im case without `pre` is given once more with the arguments of its call(s) separated by a seeded one of ";" and "\\" '
+        'instead of the comma (INDEX(A;r;c), INDEX(A\\\\c) with an empty slot for a blank row, MATCH(x;A;t), INDEX(A;MATCH(x;A;0))) '
+        'when it is an INDEX case with a blank row or column slot and i is divisible by 5, or any other one and i is divisible by '
+        '20; of the cases whose array is a literal only those with a flat literal written with commas take part (the literal '
+        'keeps its commas); about 1050 cases quick, 8400 thorough; + 18 fixed INDEX cases: the 3x3 array 1..9 with blank '
+        'row and column 2, the 2x3 array 1..6 with blank row and column 3, the 3x3 array with row 2 and blank column, each '
+        'as variable and as range, written with each of "," ";" "\\". Same oracle and same model request form as the comma cases '
+        '(the model is sent the formula as written). '
+        'Whole numbers beyond 2^53 (36 cases): ids = 2^53-9, 2^53-8, 2^53+1, 2^53+3, 9999999999999999, 12345678901234567 as a flat '
+        'array; MATCH(x,ids,0) and INDEX(ids,MATCH(x,ids,0)) for every id x with array and x as variables (src var) and written '
+        'in the formula (src lit); INDEX({ids},i) on the literal and CHOOSE(i,ids..) for every i in 1..6: the id itself must come '
+        'back, not a neighbour that is the same double. '
+        'Totals about 22400 cases in quick (41700 at scale 5), 164300 in thorough. '
         'Model comparison of every case: same error tag or value of identical type (floats within 4 ulp); model answers without opinion '
         'are skipped. When a proof or the correspondence broke and no case failed: the thorough family at scale 2 without the fn cases, '
         'oracle only, up to the first failure. A failing INDEX case is shrunk to a smaller array of the same fill that still fails. '
@@ -72,6 +88,11 @@ TRUSTED = ['Python list/str subscripting, ==, <, > on int/float/bool/str/list (m
            'common.run_check: a disagreement that vanishes when the case runs alone in a fresh interpreter is reported with the '
            'shortest prefix of the run that reproduces it (a `pre` case carries its history in itself)']
 ASSUMPTIONS = ['a blank argument slot is the same as an omitted index',
+               'the arguments of a call may be separated by "," ";" or "\\" alike: INDEX / MATCH / INDEX(MATCH) written with ";" '
+               'or "\\" are the same calls, and an empty slot between two such separators is a blank argument slot',
+               'a whole number beyond 2^53, written in the formula or handed over by the host as a Python int, is itself: MATCH '
+               'type 0 finds it at its own position only (2^53+1 does not equal its neighbour that is the same double), and INDEX / '
+               'CHOOSE / INDEX(MATCH) hand back that int',
                'index 0 or an omitted index selects the whole row / column / array; a negative index or a position outside the array '
                'gives an error (any error value), never an element counted from the end or from another row',
                'the element handed back is the identical Python value (same type: 1 is neither 1.0 nor TRUE; lists item by item); a '
